@@ -13,6 +13,7 @@
 
 #include "SQuIDS/detail/MatrixExp.h"
 #include "SQuIDS/detail/ProxyFwd.h"
+#include "SQuIDS/detail/VerifHooks.h"
 
 namespace squids{
 
@@ -812,6 +813,7 @@ void matrix_exponential(gsl_matrix_complex* eA, const gsl_matrix_complex *A){
     gsl_matrix_complex_set_all(eA,GSL_COMPLEX_ZERO);
     for(unsigned int i = 0; i<A->size1; i++)
       gsl_matrix_complex_set(eA,i,i,gsl_complex_exp(gsl_matrix_complex_get(A,i,i)));
+    SQUIDS_VERIF_EVENT(EV_EXPM_BRANCH,0,0);
     return; //done!
   }
   
@@ -834,6 +836,7 @@ void matrix_exponential(gsl_matrix_complex* eA, const gsl_matrix_complex *A){
   if (eta_1 < 1.495585217958292e-002 and ell(A, 3) == 0){
     pade3(A,id,A2,U,V);
     solve_P_Q(U,V,eA);
+    SQUIDS_VERIF_EVENT(EV_EXPM_BRANCH,3,0);
     return;
   }
   // try Pade order 5
@@ -845,6 +848,7 @@ void matrix_exponential(gsl_matrix_complex* eA, const gsl_matrix_complex *A){
   if (eta_2 < 2.539398330063230e-001 and ell(A, 5) == 0){
     pade5(A,id,A2,A4,U,V);
     solve_P_Q(U,V,eA);
+    SQUIDS_VERIF_EVENT(EV_EXPM_BRANCH,5,0);
     return;
   }
   // try Pade order 7 and 9
@@ -859,6 +863,7 @@ void matrix_exponential(gsl_matrix_complex* eA, const gsl_matrix_complex *A){
   if( eta_3 < 9.504178996162932e-001 and ell(A, 7) == 0 ){
     pade7(A,id,A2,A4,A6,U,V);
     solve_P_Q(U,V,eA);
+    SQUIDS_VERIF_EVENT(EV_EXPM_BRANCH,7,0);
     // free allocated matrices
     return;
   }
@@ -866,6 +871,7 @@ void matrix_exponential(gsl_matrix_complex* eA, const gsl_matrix_complex *A){
   if( eta_3 < 2.097847961257068e+000 and ell(A, 9) == 0 ){
     pade9(A,id,A2,A4,A6,U,V);
     solve_P_Q(U,V,eA);
+    SQUIDS_VERIF_EVENT(EV_EXPM_BRANCH,9,0);
     // free allocated matrices
     return;
   }
@@ -925,6 +931,7 @@ void matrix_exponential(gsl_matrix_complex* eA, const gsl_matrix_complex *A){
 
   if(s%2 != 0)
     gsl_matrix_complex_memcpy(eA,B);
+  SQUIDS_VERIF_EVENT(EV_EXPM_BRANCH,13,s);
 
   /*
   std::cout << "eA" << std::endl;
